@@ -70,8 +70,8 @@ class SchedulerCrash(Exception):
 # ---------------------------------------------------------------------------------------------
 # history generator
 # ---------------------------------------------------------------------------------------------
-def gen_history(rng, special=None):
-    n_st = rng.choice([1, 2, 2, 3, 3, 4])
+def gen_history(rng, special=None, big=False):
+    n_st = rng.choice([1, 2, 2, 3, 3, 4]) if not big else rng.choice([3, 4, 5, 6])
     stations = []
     for i in range(n_st):
         t = rng.random()
@@ -82,12 +82,12 @@ def gen_history(rng, special=None):
         else:
             kind = ["F", rng.choice([[8, 16, 24, 32], [6, 12, 18], [16, 32], [0, 8, 16]])]
         stations.append(dict(kind=kind, voltage=rng.choice([208, 240])))
-    horizon = rng.choice([4, 6, 8, 10, 12])
+    horizon = rng.choice([4, 6, 8, 10, 12]) if not big else rng.choice([12, 16, 20, 24])
     sessions = []
     tie_time = rng.randint(0, max(0, horizon - 2))
     for i in range(n_st):
         t = tie_time if rng.random() < 0.45 else rng.randint(0, max(0, horizon - 2))
-        while t < horizon and len(sessions) < 9:
+        while t < horizon and len(sessions) < (9 if not big else 20):
             stay = rng.choice([1, 1, 2, 2, 3, 4, 5])
             dep = t + stay
             if rng.random() < 0.3:
@@ -420,6 +420,41 @@ def registry_view(registry, addr):
     return out, addr.get(int(registry["id"]), -1)
 
 
+def run_chain_impl(h, ref_ncalls):
+    """several interruptions in one simulation, each followed by run() again, some of them with a
+    JSON round trip in between; returns (plan, numeric observables | problem string)"""
+    import random
+    from acnportal.acnsim import Simulator
+    r = random.Random(h["script_seed"] * 31 + 5)
+    ks = [r.randint(0, 2) for _ in range(r.choice([2, 3, 4]))]
+    via_json = [r.random() < 0.5 for _ in ks]
+    np.random.seed(h["np_seed"])
+    calls = []
+    wrap = Crashing(make_scheduler(h), ks[0], calls)
+    sim = build(h, wrap)
+    try:
+        for i in range(len(ks) + 1):
+            try:
+                sim.run()
+                break
+            except SchedulerCrash:
+                pass
+            nxt = ks[i + 1] if i + 1 < len(ks) else None
+            if via_json[i]:
+                st = np.random.get_state()
+                sim = Simulator.from_json(sim.to_json())
+                np.random.set_state(st)
+                wrap = Crashing(make_scheduler(h), nxt, calls)
+                sim.update_scheduler(wrap)
+            else:
+                wrap.k, wrap.n = nxt, 0
+        if sim.event_queue._queue and not sim._resolve:
+            return [ks, via_json], "run() returned with events pending"
+        return [ks, via_json], numeric(sim)
+    except Exception as e:   # noqa
+        return [ks, via_json], "chain of interruptions raised %s: %s" % (type(e).__name__, e)
+
+
 def run_history(h):
     """reference run + one record per crash point k.  Returns None if the history cannot be used
     (the reference run itself raises)."""
@@ -434,6 +469,7 @@ def run_history(h):
     ref_obs, ref_num = observe(ref, ref_calls), numeric(ref)
     ncalls = len(ref_calls)
     recs = []
+    chain_plan, chain_res = run_chain_impl(h, ncalls)
     for k in range(ncalls):
         np.random.seed(h["np_seed"])
         calls = []
@@ -488,6 +524,8 @@ def run_history(h):
         except Exception as e:   # noqa
             problem = (problem + "; " if problem else "") + "dump/load/run raised %s: %s" % (type(e).__name__, e)
         rec["ref_num"] = ref_num
+        if k == 0:
+            rec["chain_plan"], rec["chain"] = chain_plan, chain_res
         if problem:
             rec["problem"] = problem
         recs.append(rec)
@@ -553,7 +591,8 @@ def cases_of_history(h):
         kind = "%s/%s/%s" % (h["sched"][0], "mr%s" % effective_mr(h), special or "plain")
         complete = all(x in rec for x in ("resumed", "loaded", "resumed_loaded"))
         impl = {x: rec.get(x) for x in ("ref", "crash", "resumed", "loaded", "resumed_loaded", "identity",
-                                        "state_diffs", "problem", "ref_num", "resumed_num", "resumed_loaded_num")}
+                                        "state_diffs", "problem", "ref_num", "resumed_num", "resumed_loaded_num",
+                                        "chain_plan", "chain")}
         if complete:
             coq = ("{| c_events := %s; c_mr := %s; c_k := %d%%nat; c_fuel := %d%%nat;\n   i_ref := %s;\n   i_crash := %s;\n"
                    "   i_resumed := %s;\n   i_loaded := %s;\n   i_resumed_loaded := %s |}") % (
@@ -588,7 +627,7 @@ def gen_cases(rng, n, tier):
         attempts += 1
         r = rng.random()
         special = "zero_stay" if r < 0.05 else "untyped" if r < 0.10 else None
-        h = gen_history(rng, special)
+        h = gen_history(rng, special, big=(tier == "thorough" and rng.random() < 0.15))
         res = cases_of_history(h)
         if res is None or not res[0]:
             continue
@@ -637,6 +676,13 @@ def monitor(case):
     d = first_diff(ref, i["resumed_loaded_num"])
     if d:
         return "to_json/from_json/update_scheduler/run() after the scheduler raised at call %d: %s differs from the uninterrupted run" % (case["input"]["k"], d)
+    if i.get("chain") is not None:
+        if isinstance(i["chain"], str):
+            return "%s (interruptions %s)" % (i["chain"], i["chain_plan"])
+        d = first_diff(ref, i["chain"])
+        if d:
+            return "interruptions at calls %s (JSON round trip: %s), each followed by run(): %s differs from the uninterrupted run" % (
+                i["chain_plan"][0], i["chain_plan"][1], d)
     if i["identity"]:
         return "after loading: " + "; ".join(i["identity"][:3])
     if i["state_diffs"]:
